@@ -3,8 +3,8 @@ package main
 // publisher / _subscription tables and the in-order-exactly-once structure (C05).
 
 import (
-	"go/token"
 	"fmt"
+	"go/token"
 	"go/types"
 	"strings"
 
@@ -216,7 +216,7 @@ func checkPublisherTable(c *Ctx) {
 				return litClass{Atom: "ok", IfTrue: []string{"T"}, OK: true}
 			}
 			// drain loop guard: 0 < len(s.subscriptions)
-			if l.T.K == "binop" && l.T.S == "<" && l.T.A[1].K == "len" && l.T.A[1].A[0].IsRecvField("subscriptions") {
+			if l.T.K == "binop" && l.T.S == "<" && l.T.A[0].Key() == "0" && l.T.A[1].K == "len" && l.T.A[1].A[0].IsRecvField("subscriptions") {
 				return litClass{Atom: "drained", IfTrue: []string{"F"}, OK: true}
 			}
 			return litClass{}
